@@ -28,6 +28,8 @@ MAPS = [
     ("map", K_OR, None, None),
     ("map", ("lit", "a"), None, None),
     ("map", ("lit", 1), ("lit", 1), None),
+    ("map", ("lit", 1), None, None),       # an explicit MapValue with an int key: NOT what the primitive 1 converts to
+    ("map", ("lit", True), None, None),
 ]
 LISTS = [
     ("list", L("Index", "less_than", 1), None, None),
@@ -45,13 +47,15 @@ MOLS = [
     for i in (None, ("lit", 0))
     for v in (None, V_DICT)
     if (k, i, v) != (None, None, None)
-] + [("mol", K_OR, I_OR, V_OR, None), ("mol", ("lit", 1), ("lit", 1), None, None)]
+] + [("mol", K_OR, I_OR, V_OR, None), ("mol", ("lit", 1), ("lit", 1), None, None),
+     ("mol", ("lit", 1), ("lit", 1), V_DICT, None)]   # primitive-looking key/index plus a value condition
 
 PARTS = PRIMS + BARE + MAPS + LISTS + MOLS
 # a 20-part and a 12-part sub-alphabet that keep every part kind and every code path
 PARTS20 = [PRIMS[0], PRIMS[3], PRIMS[4], PRIMS[6], PRIMS[7]] + BARE + [MAPS[0], MAPS[3], MAPS[6], MAPS[8]] + \
           [LISTS[0], LISTS[3], LISTS[5], LISTS[6]] + [MOLS[0], MOLS[2], MOLS[6], MOLS[7]]
 PARTS12 = [PRIMS[0], PRIMS[3], PRIMS[4]] + BARE + [MAPS[5], MAPS[7], LISTS[4], LISTS[6], MOLS[6], MOLS[7]]
+PARTS12X = PARTS12 + [MAPS[11], MOLS[-1]]
 
 
 def paths(max_len, parts):
